@@ -713,6 +713,9 @@ impl ZmtpEngine {
       };
 
       self.last_activity_time = Instant::now();
+      // Any frame from the peer proves it is alive: an outstanding PING no longer needs its PONG
+      // (libzmq likewise cancels the heartbeat-timeout timer on any inbound traffic).
+      self.waiting_for_pong = false;
 
       if msg.is_command() {
         // ZMTP/2.0 has no COMMAND frames; receiving one is a protocol violation.
